@@ -82,26 +82,25 @@ def err_kind(e: BaseException) -> str:
     return "other:" + (m.group(1) if m else type(e).__name__)
 
 
-def kind_of_value(r: Any, names: dict[str, int]) -> tuple[int, str]:
+def kind_of_value(r: Any, classes: dict[type, int]) -> tuple[int, str]:
+    """classes: the variant classes of THIS package's union (identity, not name: two clients may both have an Alpha)."""
     if r is None:
         return 0, "null"
     if dataclasses.is_dataclass(r) and not isinstance(r, type):
-        return names.get(type(r).__name__, 0), "obj"
+        if type(r) in classes:
+            return classes[type(r)], "obj"
+        return 0, "foreign:" + type(r).__name__
     for name, py in (("bool", bool), ("int", int), ("float", float), ("str", str), ("list", list), ("dict", dict)):
         if type(r) is py:
             return 0, name
     return 0, "other:" + type(r).__name__
 
 
-@w_obs.register("unions")
-def obs_unions(job: dict) -> Any:
-    pkg = job["pkg"]
-    models = importlib.import_module(pkg + ".models")
-    cc = importlib.import_module(pkg + ".core.cattrs_converter")
+def decode_cases(job: dict, cc: Any, models: Any) -> list[dict]:
     alias = getattr(models, job["alias"])
     hf = getattr(models, job["field_holder"])
     hl = getattr(models, job["list_holder"])
-    names = job["names"]
+    classes = {getattr(models, n): i for n, i in job["names"].items() if hasattr(models, n)}
     res = []
     for c in job["cases"]:
         payload = from_tree(c["payload"])
@@ -121,11 +120,41 @@ def obs_unions(job: dict) -> Any:
                 out.update({"out": "err", "chosen": 0, "ckind": "-", "reenc": {"t": "null", "v": 0}, "ekind": err_kind(e)})
                 res.append(out)
                 continue
-            chosen, ckind = kind_of_value(r, names)
+            chosen, ckind = kind_of_value(r, classes)
             try:
                 reenc = to_tree(cc.unstructure_to_dict(r))
             except Exception as e:  # noqa: BLE001
                 reenc = {"t": "x", "v": "unstructure:" + type(e).__name__}
             out.update({"out": "ok", "chosen": chosen, "ckind": ckind, "reenc": reenc, "ekind": "-"})
             res.append(out)
-    return {"alias_repr": repr(alias)[:300], "res": res}
+    return res
+
+
+@w_obs.register("unions")
+def obs_unions(job: dict) -> Any:
+    """Optional job["history"] == {"pkg": other client package sharing job["core"], "alias", "payloads": [trees]}:
+    `fresh` = this client's union decoded with a freshly imported converter module; then the converter module is
+    imported anew (empty module state), the OTHER client's union is decoded first and this client's union after it
+    (`res`) - two clients of one process sharing one core package."""
+    pkg = job["pkg"]
+    core_mod = (job.get("core") or pkg + ".core") + ".cattrs_converter"
+    models = importlib.import_module(pkg + ".models")
+    cc = importlib.import_module(core_mod)
+    alias = getattr(models, job["alias"])
+    out: dict[str, Any] = {"alias_repr": repr(alias)[:300]}
+    hist = job.get("history")
+    if not hist:
+        out["res"] = decode_cases(job, cc, models)
+        return out
+    out["fresh"] = decode_cases(job, cc, models)
+    sys.modules.pop(core_mod, None)
+    cc2 = importlib.import_module(core_mod)
+    other = importlib.import_module(hist["pkg"] + ".models")
+    oalias = getattr(other, hist["alias"])
+    for t in hist["payloads"]:
+        try:
+            cc2.structure_from_dict(from_tree(t), oalias)
+        except Exception:  # noqa: BLE001
+            pass
+    out["res"] = decode_cases(job, cc2, models)
+    return out
